@@ -8,56 +8,56 @@ HOOK_COMMITS = subprocess.run(
 
 CHECKS = {
  "C01": ("exploration", "reference-model lock-step monitor over generated sequential histories",
-         "The real store is driven through thousands of generated histories over hostile key universes (shared buckets, long common prefixes, empty values, tiny file limits, both primaries, both immutable modes) and every call's result is compared at once with an in-memory map; held on the histories and configurations explored, reported with counts.",
+         "The real store is driven through thousands of generated histories over hostile key universes (shared buckets, long common prefixes, empty values, tiny file limits, both primaries, both immutable modes) and every call's result is compared at once with an in-memory map; held on the histories and configurations explored, reported with counts. Digests range from 4 to 323 bytes with multi-byte hash codes; two keys agreeing in their first 250 bytes are not generated (known finding C01-F1, own reproducer).",
          "finite sample of histories/configurations; reference map is the specification; keys satisfy the statement's precondition", "5 C01"),
  "C02": ("exploration", "reopen monitor: snapshot vs rescan recovery compared through fsck and the reference model",
          "At every Close inside generated histories (with rollovers, removals and GC cycles before) the closed directory is reopened through the snapshot path, the rescan path and with an unusable snapshot; all three must equal the model and resolve every bucket to the same entries.",
          "same configuration on reopen; GC before Close runs on flushed state", "5 C02"),
  "C03": ("fault_enumeration", "crash-point imaging at hook points + torn-write synthesis + recovery oracle",
          "One single-threaded execution yields the directory image a process crash would leave at every file-system step point (hooks sit before each mutation); torn appends are synthesised between consecutive images; every image is reopened and checked key by key against the durable-or-acknowledged set, then driven further through GC and reopen with fsck. A second family produces crash states in which a flush and a collector are both mid-way (one parked at a step point while the other runs, so images stay point-in-time), a third one bursts of >1024 frees between flushes. All step points of the executed histories are enumerated; histories are sampled.",
-         "process-crash model (kernel-visible writes survive); crash points of executed single-threaded histories; equal-length in-place rewrites, renames, truncations atomic", "5 C03"),
+         "process-crash model (kernel-visible writes survive); crash points of executed single-threaded histories plus scripted flush x collector and flush x flush interleavings; equal-length in-place rewrites, renames, truncations atomic; further families: burst histories, index-GC churn histories, crash inside a legacy conversion", "5 C03"),
  "C04": ("exploration", "reference-model monitor with GC cycles interleaved, full probe after every cycle",
          "Generated histories interleave primary and index GC cycles (all thresholds, scan-free on/off, with and without a preceding flush, cycles stopped midway by a synthetic deadline and resumed) with ordinary calls; after every cycle every key is probed against the model and the history ends with reopen.",
          "cycles are driven synchronously through MultihashPrimary.GC and the verif-tagged index GC wrapper", "5 C04"),
  "C05": ("exploration", "recorded client histories (atomic logical clock) checked per key with porcupine against the reference map, under stress, noise, depth-d delays and gates; race build",
-         "Real goroutines call the public API on keys concentrated in few buckets while the flusher and explicit flushes run; schedules are widened by hash-determined delays at hook points between the store's critical sections and by scripted gates; every call is recorded at the API boundary and each key's sub-history is checked for linearizability, plus error classes, reads after quiescence and fsck of the closed store. Class A (one writer per key) and class B (several) are generated separately.",
+         "Real goroutines call the public API on keys concentrated in few buckets while the flusher and explicit flushes run; schedules are widened by hash-determined delays at hook points between the store's critical sections and by scripted gates; every call is recorded at the API boundary and each key's sub-history is checked for linearizability, plus error classes, reads after quiescence and fsck of the closed store. Class A (one writer per key) and class B (several) are generated separately. A quarter of the cases use SyncOnFlush(true).",
          "schedules sampled, not enumerated; porcupine timeout = inconclusive", "5 C05"),
  "C06": ("exploration", "as C05 with primary and index GC loops or background collectors and cache resizing running concurrently; race build",
-         "Same history oracle (GC is invisible to the model) on the multihash primary with 40-300 byte files so that collectors mark, merge, truncate, relocate and unlink while callers run; evidence reports GC hook events inside client activity.",
+         "Same history oracle (GC is invisible to the model) on the multihash primary with 40-300 byte files so that collectors mark, merge, truncate, relocate and unlink while callers run; evidence reports GC hook events inside client activity. Scripted windows G7-G11, G24, G25; a quarter of the cases use SyncOnFlush(true).",
          "one goroutine per harness-driven collector, never combined with background collectors", "5 C06"),
  "C07": ("exploration", "independent fsck reader evaluated at every quiescent point",
-         "An independent parser of all on-disk formats evaluates the statement's invariant list after every Flush/Close of histories from the C01, C04 and C02 generators plus a crash slice of its own: fsck with the log-replay bucket table on crash images (torn variants included), on every image of the post-recovery continuation and on the closed store (post-concurrency states are examined inside C05/C06 with the same fsck).",
+         "An independent parser of all on-disk formats evaluates the statement's invariant list after every Flush/Close of histories from the C01, C04 and C02 generators plus a crash slice of its own: fsck with the log-replay bucket table on crash images (torn variants included), on every image of the post-recovery continuation and on the closed store (post-concurrency states are examined inside C05/C06 with the same fsck). Further slices: index-GC churn histories (one record list per flush, cycles cut short), the comparison of the log-replay table with the live table at every flush, C06's scripted collector x caller windows (fsck verdicts only) and crash explorations of legacy conversions.",
          "formats as read from the code (DESIGN.md appendix A); invariant exactly as stated", "5 C07"),
  "C08": ("exploration", "bounded-exhaustive + random sequences at the index API with lookup and structure monitors",
-         "All valid sequences up to the bound over an 8-key universe containing every shared-prefix shape, each in two flush variants, plus random longer sequences; after every operation every key is looked up and the stored prefixes are read back and checked (sorted, prefix-free, prefix of own key, other entries untouched); each sequence ends with a rescanning reopen of the index and repeated lookups.",
+         "All valid sequences up to the bound over an 8-key universe containing every shared-prefix shape, each in two flush variants, plus random longer sequences; after every operation every key is looked up and the stored prefixes are read back and checked (sorted, prefix-free, prefix of own key, other entries untouched); each sequence ends with a rescanning reopen of the index and repeated lookups. A store-level part asks the same question through the real multihash and CID primaries (one-bucket universes, multi-byte hash codes, digests up to 323 bytes) with fsck's structural clauses after every flush.",
          "exhaustive only within the stated bound; Update/Remove issued for present keys only", "5 C08"),
  "C09": ("exploration", "reference-model monitor across bit-size changes + crash-point imaging inside the translation",
-         "Every ordered pair of bit sizes over {8,9,12,15,16,17,20,24} is exercised on generated histories, chains of changes are interleaved with file-size-mismatch opens that must be refused with the specific error types, and every hook point inside a translating OpenStore is imaged (torn variants included) and reopened with old and new bits: a successful open must show every key.",
+         "Every ordered pair of bit sizes over {8,9,12,15,16,17,20,24} is exercised on generated histories, chains of changes are interleaved with file-size-mismatch opens that must be refused with the specific error types, and every hook point inside a translating OpenStore is imaged (torn variants included) and reopened with old and new bits: a successful open must show every key. Mismatch opens are also combined with a bit-size change; every second recovery carries an older empty old_index directory.",
          "24-bit sizes only with short histories; a refused open need not leave files untouched", "5 C09"),
  "C10": ("exploration", "independent legacy-format writer + reference-model monitor + crash-point imaging inside the upgrade",
          "Legacy stores are produced by the harness' own writer (simulated store life, pending/pre-deleted/leaked records, dangling entries, chunk limits around record sizes), upgraded by OpenStore and compared with the generator's map, fsck'd and used further; every hook point inside the upgrade is imaged and must resume to the same contents.",
          "legacy formats reconstructed from the upgrade code and fixtures", "5 C10"),
  "C11": ("exploration", "bounded-progress monitor over directory listings, StorageSize and fsck layout across GC cycles",
-         "Liveness restated as bounded progress in harness-driven GC cycles: dead files must be released within 4 cycles, low-use files drained within live+4, growth bounded by relocations, and a fixed point reached after which nothing is written.",
+         "Liveness restated as bounded progress in harness-driven GC cycles: dead files must be released within 4 cycles, low-use files drained within live+4, growth bounded by relocations, and a fixed point reached after which nothing is written. Variants: every cycle time-limited, a cycle stopped while its freelist batch is applied, hand-overs of several hundred entries, left-over header temp files, and the store's own background collectors stepped one cycle at a time by gates.",
          "progress counted in cycles with a Flush between; generous bounds", "5 C11"),
  "C12": ("exploration", "gated interleavings of flushTick vs Flush + stress; oracle = state of the notice channel handed over by the registered hook",
-         "Liveness restated as bounded progress in flushes: the notice a writer registered must be closed once a Flush started after the registration has returned; decided by a non-blocking receive on the channel, never by wall-clock time. Gates place a flush between decision and registration (single writer), two writers around one flush, registration during a flush's commit.",
+         "Liveness restated as bounded progress in flushes: the notice a writer registered must be closed once a Flush started after the registration has returned; decided by a non-blocking receive on the channel, never by wall-clock time. Gates place a flush between decision and registration (single writer), two writers around one flush, registration during a flush's commit. Further scripts: SyncOnFlush with a write landing between a commit's index flush and its syncs, a writer after a collector resumed a left-over hand-over file, a writer after collector cycles that could not read their header; a harness Flush that does not return in 30 s is reported with the goroutine profile.",
          "flush failures not injected; gate expiry = inconclusive", "5 C12"),
  "C13": ("exploration", "multiset-conservation monitor over freelist append stream, hand-over batches and deleted bits",
          "With a flush after every mutating call the multiset of locations that stopped being current (from fsck's decoded layout) must equal the multiset of freelist entries appended (file + batches captured at the hand-over hook); consumed batches must be dead afterwards; no location marked twice or while current; every entry ever handed over must be dead once no hand-over file exists. Two further families: a concurrent stress of the freelist package (producers / Flush loop / ToGC consumer: handed over + left in file == produced) and a crash slice (no location that a restarted store would treat as current may be on the freelist or marked deleted, on images taken at every hook point).",
-         "sequential histories; locations never reused in the explored range", "5 C13"),
+         "sequential histories for the interval oracle; store-level concurrent families (scripted writer x relocation windows G18-G20, C06-style stress) decide on the closed store: no location twice in captured batches + freelist + hand-over file, none of them current, every unmarked non-current record among them; locations never reused in the explored range", "5 C13"),
  "C14": ("exploration", "bounded-exhaustive + random + concurrent runs at the filecache API with a shadow table of lent handles",
          "All operation sequences up to the bound over three names and capacities incl. 0 are executed on real files; after every step the shadow table checks that lent handles are open and refer to their file, that Len/Cap/descriptor accounting identities hold and legitimate Closes succeed; a concurrent stress part (race build) checks that a held handle never fails with ErrClosed, and a store-level part runs lookups, whole-store iterations and cache resizing through a 1-2 entry cache on a flushed store (a closed-file error there means a user of the cache gave a handle back while another still held it).",
-         "eviction order not modelled; exhaustive within the stated bound only", "5 C14"),
+         "eviction order not modelled; exhaustive within the stated bound only; names spelled three ways; further families: scripted window G21 (reader holds a cached handle while another read of that file fails), slow-open overlaps (Open blocked in open(2) on a FIFO vs resize/Clear/Remove), yielding eviction callback in the concurrent runs", "5 C14"),
  "C16": ("exploration", "Go race detector (happens-before) over dense concurrent compositions of the public API, flusher, size queries, cache resizing and both collectors",
          "Every execution of the race build is observed by the race detector; reports with a go-storethehash frame are verdicts, deduplicated by the pair of first store frames; runtime fatal errors end the worker and are attributed to the case.",
-         "only executed paths and observed happens-before relations", "5 C16"),
+         "only executed paths and observed happens-before relations; a quarter of the cases with SyncOnFlush, one in sixteen drives the failing-flush error path under rate-limited writers", "5 C16"),
  "C15": ("exploration", "reference-model monitor at the blockstore interface incl. cancelled contexts, aliases and hash-on-read",
          "Generated blockstore histories over blocks of all sizes incl. empty, four hash functions, CIDv0/v1 x three codecs, mismatching (CID, bytes) pairs, live and cancelled contexts on every method and HashOnRead toggles are compared call by call with a map keyed by multihash and the expected error classes.",
-         "digests >= 4 bytes; first write wins per multihash", "5 C15"),
+         "digests >= 4 bytes, none a proper prefix of another; first write wins per multihash; a third of the cases run serviced (1 ms flusher, settle steps, restarts), half of those with background collectors, a mass-delete epilogue and restarts before the final re-read with hash-on-read", "5 C15"),
  "C17": ("exploration", "resource monitors (goroutine profiles, /proc/self/fd, directory hashes, hook-event silence) around Close issued at random moments, with collectors/flusher parked mid-way by gates, after failing opens and over 200 open/close cycles; race build",
          "After Close returned: no store hook event fires any more, no descriptor into the store directories is open, no store goroutine stays blocked over three profiles, the directory hash is stable, and the reopened store equals the model before and after GC; failed opens leave no descriptor or goroutine; nothing accumulates over cycles. A Close that never returns is reported by the watchdog with the goroutine dump.",
-         "clients have stopped when Close is issued; runnable goroutines are resampled, only blocked ones count", "5 C17"),
+         "clients have stopped when Close is issued; runnable goroutines are resampled, only blocked ones count; further families: Close that has to write while the write cannot succeed, scripted descriptor windows G22/G23 and all of C06's collector x caller windows under the descriptor clause (Go collector off), legacy-format failing opens", "5 C17"),
 }
 
 NOT_YET = {
